@@ -212,7 +212,10 @@ def _mimic_async[**Args, Result](
         except AttributeError:
             pass
     try:
-        within.__dict__.update(function.__dict__)
+        # never replace attributes of the wrapper - it keeps its own state there
+        within.__dict__.update(
+            {key: value for key, value in function.__dict__.items() if key not in within.__dict__}
+        )
 
     except AttributeError:
         pass
